@@ -81,6 +81,9 @@ def scenarios(draw):
     sc["gz_reference"] = src.bool(0.3)
     sc["stale_dir"] = src.bool(0.35)
     sc["stale_mask"] = [src.bool(0.5) for _ in sc["reads"]]
+    sc["stale_other_reference"] = src.bool(0.5)
+    if src.bool(0.4):
+        sc["opts"] += ["--check_canonical"]
     # how the inputs are named: a YAML description instead of --bam; paths relative to the working directory of the first
     # run (the resumed run is started from another directory); an output folder whose name means something to glob
     sc["input_mode"] = src.choice(["bam", "bam", "yaml"])
@@ -171,9 +174,25 @@ def make_stale(sc, d, paths, extra, ctx):
     sub["opts"] = opts
     fresh_reference(paths)
     ctx.pipeline_runs += 1
-    if run.run_fork(build.base_argv(sub, p2, stale, extra), os.path.join(d, "home_stale"),
-                    os.path.join(d, "stale.log")) != 0:
-        return None
+    real = None
+    if sc.get("gz_reference") and sc.get("stale_other_reference"):
+        # the earlier run used the reference before it was corrected: same file name, every base complemented
+        import gzip
+        real = open(paths["fasta"], "rb").read()
+        text = gzip.decompress(real).decode()
+        comp = "\n".join(l if l.startswith(">") else l.translate(str.maketrans("ACGTacgt", "TGCAtgca"))
+                         for l in text.split("\n"))
+        with gzip.open(paths["fasta"], "wb") as g:
+            g.write(comp.encode())
+    try:
+        if run.run_fork(build.base_argv(sub, p2, stale, extra), os.path.join(d, "home_stale"),
+                        os.path.join(d, "stale.log")) != 0:
+            return None
+    finally:
+        if real is not None:
+            with open(paths["fasta"], "wb") as f:
+                f.write(real)
+            fresh_reference(paths)
     return stale
 
 
@@ -364,6 +383,12 @@ def run_enumeration(shard, nshards, seed, n, ctx, tier="quick"):
             sc["relative"] = True
             sc["input_mode"] = ["bam", "yaml"][i]
             sc["out_suffix"] = ["", "[1]"][i]
+        if i % 2 == 1:
+            # the earlier run in the re-used folder: with the same compressed reference, or with its uncorrected version
+            sc["gz_reference"] = i % 4 == 1
+            sc["stale_other_reference"] = True
+            if "--check_canonical" not in sc["opts"]:
+                sc["opts"] += ["--check_canonical"]
         enumerate_scenario(sc, ctx, shard, nshards, modes, double_stride=2 if tier == "quick" else 1)
     ctx.evaluations = 0
     body()
